@@ -5277,16 +5277,18 @@ func (a *Agent) TaskDispatch(RequestID uint32, CommandID uint32, Parser *parser.
 										// if the agent doesn't exist then we assume that it's a register request from a new agent
 
 										DemonInfo = ParseDemonRegisterRequest(AgentHdr.AgentID, AgentHdr.Data, "")
-										DemonInfo.Pivots.Parent = a
+										if DemonInfo != nil {
+											DemonInfo.Pivots.Parent = a
 
-										a.Pivots.Links = append(a.Pivots.Links, DemonInfo)
+											a.Pivots.Links = append(a.Pivots.Links, DemonInfo)
 
-										DemonInfo.Info.MagicValue = AgentHdr.MagicValue
+											DemonInfo.Info.MagicValue = AgentHdr.MagicValue
 
-										// persist the session before the link that refers to it
-										teamserver.AgentAdd(DemonInfo)
-										teamserver.LinkAdd(a, DemonInfo)
-										teamserver.AgentSendNotify(DemonInfo)
+											// persist the session before the link that refers to it
+											teamserver.AgentAdd(DemonInfo)
+											teamserver.LinkAdd(a, DemonInfo)
+											teamserver.AgentSendNotify(DemonInfo)
+										}
 									}
 
 									if DemonInfo != nil {
